@@ -614,7 +614,7 @@ pub fn cases(quick: bool) -> Vec<Case> {
         }
     }
     for gk in [GenomeKind::Vector, GenomeKind::Plushy] {
-        for l in if quick { vec![64usize, 65, 129, 256, 257] } else { vec![31, 32, 33, 63, 64, 65, 100, 127, 128, 129, 255, 256, 257, 300] } {
+        for l in if quick { (9usize..=70).chain([100, 128, 129, 256, 257]).collect::<Vec<usize>>() } else { (9usize..=140).chain([191, 192, 255, 256, 257, 300, 511, 512, 513]).collect() } {
             for (a, d) in [((1u32, 2u32), (1u32, 2u32)), ((1, 1), (1, 2)), ((1, 2), (0, 1))] {
                 v.push(Case::UmadLong(gk, a, d, l, if quick || l > 130 { 1 } else { 2 }));
             }
